@@ -46,6 +46,11 @@ pub struct LexiconSet<'a> {
 }
 
 impl<'a> LexiconSet<'a> {
+    /// Number of parts of speech of the system dictionary
+    pub fn num_system_pos(&self) -> usize {
+        self.num_system_pos
+    }
+
     /// Creates a LexiconSet given a lexicon
     ///
     /// It is assumed that the passed lexicon is the system dictionary
